@@ -156,7 +156,32 @@ fn mutate_text(rng: &mut Rng, text: &str) -> String {
     let n = 1 + rng.usize_below(3);
     for _ in 0..n {
         let li = if rng.chance(1, 2) { rng.usize_below(lines.len().min(3)) } else { rng.usize_below(lines.len()) };
-        match rng.below(9) {
+        match rng.below(11) {
+            9 => {
+                // a long line of non-ASCII text (comment, garbage) after or instead of a line: every
+                // length around typical buffer / truncation sizes, multi-byte characters at every offset
+                let ch = *rng.pick(&["€", "ä", "🙂", "é", "ß", "日"]);
+                let pad = " ".repeat(rng.usize_below(4));
+                let n = *rng.pick(&[40usize, 86, 100, 128, 129, 200, 300, 1025]);
+                let garbage = format!("{pad}{}", ch.repeat(n));
+                if rng.bool() {
+                    lines.insert((li + 1).min(lines.len()), garbage);
+                } else {
+                    lines[li] = garbage;
+                }
+            }
+            10 => {
+                // a gate line padded with blanks to a length around 256 / 512 / 1024 bytes, followed by a
+                // comment with multi-byte characters
+                let target = *rng.pick(&[250usize, 253, 254, 255, 256, 257, 510, 511, 512, 1022, 1023, 1024]) + rng.usize_below(4);
+                let mut l = lines[li].clone();
+                while l.len() < target {
+                    l.push(' ');
+                }
+                let comment: &str = *rng.pick(&["-- geändert für den Übertrag", "# données modifiées", "// 日本語のコメント", "€€€€€€€€"]);
+                l.push_str(comment);
+                lines[li] = l;
+            }
             0 => {
                 lines.remove(li);
                 if lines.is_empty() {
@@ -201,7 +226,10 @@ fn mutate_text(rng: &mut Rng, text: &str) -> String {
             }
             7 => {
                 lines.truncate(li + 1);
-                let keep = rng.usize_below(lines[li].len() + 1);
+                let mut keep = rng.usize_below(lines[li].len() + 1);
+                while !lines[li].is_char_boundary(keep) {
+                    keep -= 1;
+                }
                 lines[li].truncate(keep);
             }
             _ => {
